@@ -33,9 +33,6 @@ theorem configureLengths_ctl (c : Chan) (nsamp npre : Int) (hn : 0 ≤ nsamp) :
   · exact Ctl.refl c
   · exact ⟨rfl, rfl, rfl, rfl, rfl, fun _ => ⟨hn, by simp; exact hn⟩⟩
 
-theorem emtLoop_some {raw first zt} {s : EMT} {iLast maxN iFirst t u v acc fuel r}
-    (_h : emtLoop raw first zt s iLast maxN iFirst t u v acc fuel = some r) : True := trivial
-
 theorem emtSpecs_nsamp {raw : List Nat} {first : Int} {zt : ZT} {s s' : EMT} {specs : List Spec}
     (h : emtSpecs raw first zt s = some (s', specs)) : s'.nsamp = s.nsamp := by
   unfold emtSpecs at h
